@@ -395,6 +395,10 @@ func c16RawOwnership(r *Report, p *Prog) {
 				}
 				if al, ok := allowed[cal.Name()]; ok && cal.Signature.Recv() != nil {
 					counts[cal.Name()]++
+					if cal.Name() == "GetRaw" && !al[p.FuncName(fn)] && rawOnlyIntoNewFromXY(in) {
+						r.Ok("RAW-LIMB-OWNERSHIP", fmt.Sprintf("%s called from %s", cal.Name(), p.FuncName(fn)), p.InstrPos(in), "the limbs of an element go straight into NewFromXY and nowhere else: the same canonical limbs, in an element again")
+						continue
+					}
 					r.Check(al[p.FuncName(fn)], "RAW-LIMB-OWNERSHIP", fmt.Sprintf("%s called from %s", cal.Name(), p.FuncName(fn)), p.InstrPos(in), "raw Montgomery limbs may only be injected from the verified tables (NewFromXY) and exported to MultiSelect (TransformPrecomputed)")
 				}
 			}
@@ -403,4 +407,27 @@ func c16RawOwnership(r *Report, p *Prog) {
 	if counts["SetRaw"] == 0 || counts["GetRaw"] == 0 {
 		r.Fatalf("unresolved anchor: no call site of SetRaw/GetRaw found (%v)", counts)
 	}
+}
+
+// rawOnlyIntoNewFromXY: the raw limbs returned by this GetRaw call are used only as arguments of NewFromXY
+func rawOnlyIntoNewFromXY(in ssa.Instruction) bool {
+	v, ok := in.(*ssa.Call)
+	if !ok || v.Referrers() == nil {
+		return false
+	}
+	n := 0
+	for _, ref := range *v.Referrers() {
+		switch x := ref.(type) {
+		case *ssa.DebugRef:
+		case *ssa.Call:
+			cal := x.Call.StaticCallee()
+			if cal == nil || cal.Pkg == nil || shortPkg(cal.Pkg.Pkg.Path()) != "sm2/internal" || cal.Name() != "NewFromXY" {
+				return false
+			}
+			n++
+		default:
+			return false
+		}
+	}
+	return n > 0
 }
